@@ -94,11 +94,12 @@ theorem C02_ledger (K N T : Nat) (cfg : Cfg) (progs : Nat → List (String × Op
     Ledger K N T (run (State.initial cfg progs) sched) :=
   (Ledger.initial K N T cfg progs).run sched hg
 
-/-- at quiescence (no operation in flight on any thread below `T`, every debt slot empty) the
+/-- at quiescence (no operation in flight on any thread below `T`, no debt slot naming the value) the
     strong count of every value is exactly the number of containers, handles and guards denoting it -/
 theorem Ledger.quiescent {K N T : Nat} {st : State} (h : Ledger K N T st)
     (hidle : ∀ t, t < T → uOp (st.th t).op = fun _ => 0)
-    (hslots : ∀ n i, (st.sh.nodes n).fast i = .none ∧ (st.sh.nodes n).hslot = .none) (a : Nat) (ha : a ≠ 0) :
+    (a : Nat) (ha : a ≠ 0)
+    (hslots : ∀ n i, (st.sh.nodes n).fast i ≠ .ptr a ∧ (st.sh.nodes n).hslot ≠ .ptr a) :
     (st.sh.heap a).cnt = st.sh.regs N a := by
   have h0 := h a ha
   have e1 : threadsU T st a = 0 := by
